@@ -12,6 +12,8 @@ scripted `MsgConn`, see harness/muxh).  Keys are `r|u <id>`.
   read r|u <id> <n>            Read on a held tube into n bytes                  -> no-tube | block | eof | <hex> <flag>
   wr r|u <id> <hex>            Write on a held tube and watch the frame leave    -> ok | no
   reap r|u <id>                close handshake (harness plays the peer), reaper  -> ok | no
+  shut r <id>                  close handshake of a locally opened reliable tube, NOT waiting for the
+                               reaper: the identifier is reserved until `reap`   -> ok | no
   has r|u <id>                 is there a tube under that key                    -> 0 | 1
   stop                         Muxer.Stop                                        -> ok
 -/
@@ -96,6 +98,11 @@ def step (st : St) (ws : List String) : St × String :=
     | _, _ => (st, "bad-op")
   | ["reap", r, id] => match parseKey r id with
     | some k => match reap m k with
+      | (m', true) => ({ m := some m' }, "ok")
+      | (_, false) => (st, "no")
+    | none => (st, "bad-op")
+  | ["shut", r, id] => match parseKey r id with
+    | some k => match shut m k with
       | (m', true) => ({ m := some m' }, "ok")
       | (_, false) => (st, "no")
     | none => (st, "bad-op")
